@@ -717,6 +717,17 @@ def run_loop_slice(eng, contract, d, st, fr, result):
             body = n['inner'][4]
             c = n['inner'][2]
             if c.get('kind'): st.pc.append(eng.as_bool(eng.rv(c, st, fr)))
+        elif n['kind'] == 'WhileStmt':
+            body = n['inner'][-1]
+            c = n['inner'][0]
+            # the requires clauses come first: the guard is evaluated under them (its safety obligations may need them)
+            result['slice_pre'] = st.clone()
+            if contract.pre:
+                C0 = Ctx(eng, d, result.get('args', {}), fr.this, result['slice_pre'])
+                for (nm, g) in contract.pre(C0): st.pc.append(g)
+            st.pc.append(eng.as_bool(eng.rv(c, st, fr)))
+            result['slice_pre'] = st.clone()
+            return eng.exec_stmt(body, st, fr)
         else:
             raise Unsupported('slice of %s' % n['kind'])
         result['slice_pre'] = st.clone()
